@@ -55,8 +55,11 @@ static void check_tp(const char* dname, long long count, const cctz::time_zone& 
     r.violation(std::string("C18:split:") + dname, std::string(dname) + " count " + std::to_string(count) + ": split_seconds gives second " + std::to_string(glue::unix_of(sp.first)) + " expected floor " + s128(sec), ra);
     return;
   }
+  // a tick that is a non-integral number of seconds (ratio<5,2>): the interface returns the remainder in ticks of D,
+  // which cannot express it; only the floored second (split, lookup, convert) is checked for such types
+  const bool odd_ratio = (num != 1 && den != 1);
   const auto subfs = std::chrono::duration_cast<cctz::detail::femtoseconds>(sp.second).count();
-  if (subfs < 0 || static_cast<i128>(subfs) != fs) {
+  if (!odd_ratio && (subfs < 0 || static_cast<i128>(subfs) != fs)) {
     r.violation(std::string("C18:split-remainder:") + dname, std::string(dname) + " count " + std::to_string(count) + ": sub-second remainder " + std::to_string(subfs) + " fs expected " + s128(fs), ra);
     return;
   }
@@ -69,6 +72,7 @@ static void check_tp(const char* dname, long long count, const cctz::time_zone& 
     r.violation(std::string("C18:lookup:") + dname, std::string(dname) + " count " + std::to_string(count) + ": lookup/convert give " + ref::civil_str(civil_of(al.cs)) + " expected " + ref::civil_str(want), ra);
     return;
   }
+  if (odd_ratio) return;
   // format: full precision, every digit count, %E*f
   const std::string head = ymd_hm(want);
   const std::string all = strip_zeros(frac_digits(fs, 15));
@@ -137,6 +141,10 @@ typedef std::chrono::duration<std::int64_t, std::ratio<60>> d_min64;
 typedef std::chrono::duration<std::int64_t, std::ratio<3600>> d_h64;
 typedef std::chrono::duration<std::int32_t> d_s32;
 typedef std::chrono::duration<std::int64_t, std::ratio<86400>> d_day64;
+// ticks that are a non-integral number of seconds (the remainder after the whole seconds is not a whole tick)
+typedef std::chrono::duration<std::int64_t, std::ratio<5, 2>> d_5_2;
+typedef std::chrono::duration<std::int32_t, std::ratio<3, 2>> d_3_2;
+typedef std::chrono::duration<std::int64_t, std::ratio<1, 60>> d_60th;
 
 template <typename D>
 static void sweep_subsecond(const char* dname, bool thorough, const std::vector<cctz::time_zone>& zs, const std::vector<int>& offs, int shard, int nshards, hz::Result& r) {
@@ -193,7 +201,7 @@ int main(int argc, char** argv) {
     const std::string d = a.get("--dur");
     const long long c = atoll(a.get("--count").c_str());
 #define ONE(T, N) if (d == N) for (size_t z = 0; z < zs.size(); ++z) check_tp<T>(N, c, zs[z], offs[z], total);
-    ONE(d_ns, "int64-ns") ONE(d_us, "int64-us") ONE(d_ms, "int64-ms") ONE(d_s, "int64-s") ONE(d_min32, "int32-min") ONE(d_h32, "int32-h") ONE(d_s16, "int16-s") ONE(d_min16, "int16-min") ONE(d_s8, "int8-s") ONE(d_min8, "int8-min") ONE(d_third, "int64-third") ONE(d_fs, "int64-fs")
+    ONE(d_ns, "int64-ns") ONE(d_us, "int64-us") ONE(d_ms, "int64-ms") ONE(d_s, "int64-s") ONE(d_min32, "int32-min") ONE(d_h32, "int32-h") ONE(d_s16, "int16-s") ONE(d_min16, "int16-min") ONE(d_s8, "int8-s") ONE(d_min8, "int8-min") ONE(d_third, "int64-third") ONE(d_fs, "int64-fs") ONE(d_5_2, "int64-2.5s") ONE(d_3_2, "int32-1.5s") ONE(d_60th, "int64-60th")
     return hz::finish(a, total);
   }
   if (a.has("--pdur")) {
@@ -219,6 +227,11 @@ int main(int argc, char** argv) {
     sweep_narrow<d_min8>("int8-min", -128, 127, zs, offs, sh, nshards, r);
     sweep_narrow<d_s16>("int16-s", -32768, 32767, zs, offs, sh, nshards, r);
     sweep_narrow<d_min16>("int16-min", -32768, 32767, zs, offs, sh, nshards, r);
+    sweep_narrow<d_5_2>("int64-2.5s", -20000, 20000, zs, offs, sh, nshards, r);
+    sweep_narrow<d_3_2>("int32-1.5s", -20000, 20000, zs, offs, sh, nshards, r);
+    sweep_narrow<d_3_2>("int32-1.5s", INT32_MIN, INT32_MIN + 1000LL, zs, offs, sh, nshards, r);
+    sweep_narrow<d_3_2>("int32-1.5s", INT32_MAX - 1000LL, INT32_MAX, zs, offs, sh, nshards, r);
+    sweep_narrow<d_60th>("int64-60th", -20000, 20000, zs, offs, sh, nshards, r);
     sweep_narrow<d_min32>("int32-min", -100000, 100000, zs, offs, sh, nshards, r);
     sweep_narrow<d_min32>("int32-min", INT32_MIN, INT32_MIN + 1000LL, zs, offs, sh, nshards, r);
     sweep_narrow<d_min32>("int32-min", INT32_MAX - 1000LL, INT32_MAX, zs, offs, sh, nshards, r);
